@@ -6,7 +6,6 @@ package fix
 import (
 	"crypto"
 	"crypto/ecdsa"
-	"crypto/rand"
 	"crypto/rsa"
 	"crypto/x509"
 	"embed"
@@ -46,13 +45,15 @@ var (
 )
 
 // Names of all fixtures.
-var Names = []string{"idp", "idp2", "idpenc", "attacker", "idpec", "sp", "sp2", "spec", "rsa1024", "rsa3072", "rsa4096", "p384", "p521"}
+var Names = []string{"idp", "idp2", "idpenc", "attacker", "idpec", "sp", "sp2", "spec", "rsa1024", "rsa3072", "rsa4096", "p384", "p521", "idpski", "lookalike"}
 
 // Get loads a fixture key pair:
 //
 //	idp      trusted IdP signing key (RSA-2048)          idp2   second trusted signing key
 //	idpenc   IdP encryption-only key                     attacker  untrusted, same subject DN as idp
 //	idpec    IdP ECDSA P-256 key
+//	idpski   IdP signing key whose certificate carries subject / authority key identifiers (as most real ones do)
+//	lookalike  untrusted key whose self-made certificate copies idpski's subject, serial, validity and key identifiers
 //	sp, sp2  SP RSA-2048 keys      spec  SP ECDSA P-256 key
 //	rsa1024 rsa3072 rsa4096 p384 p521   size variants
 func Get(name string) *KeyPair {
@@ -87,14 +88,25 @@ func Get(name string) *KeyPair {
 // Epoch is the default instant of the controlled library clock.
 var Epoch = time.Date(2020, 6, 15, 12, 0, 0, 0, time.UTC)
 
-// Reset restores every process-global knob the library reads to its default,
+// What the library itself initialises its process-global knobs to, captured before the harness touches any of
+// them (this package's variables are initialised after the imported library packages).  Reset restores these -
+// not values the harness believes to be the defaults - so that a library whose own default is wrong (say, a
+// random source that is not random) is judged as shipped.
+var (
+	LibSAMLRand      = saml.RandReader
+	LibXMLEncRand    = xmlenc.RandReader
+	LibMaxIssueDelay = saml.MaxIssueDelay
+	LibMaxClockSkew  = saml.MaxClockSkew
+)
+
+// Reset restores every process-global knob the library reads to the library's own default,
 // with the clock pinned at Epoch.
 func Reset() {
 	SetNow(Epoch)
-	saml.RandReader = rand.Reader
-	xmlenc.RandReader = rand.Reader
-	saml.MaxIssueDelay = 90 * time.Second
-	saml.MaxClockSkew = 180 * time.Second
+	saml.RandReader = LibSAMLRand
+	xmlenc.RandReader = LibXMLEncRand
+	saml.MaxIssueDelay = LibMaxIssueDelay
+	saml.MaxClockSkew = LibMaxClockSkew
 	jwt.MarshalSingleStringAsArray = true
 }
 
